@@ -132,7 +132,7 @@ def run(ctx: Ctx):
                 for mv in (c1[0][1]["gm"], c1[0][1]["bm"]):
                     d = _assigns(po, mv)
                     e2 = pat.m(f"{mv} = np.isclose(V_x, V_x.max(-1, keepdims=True), REST=ANY)", d[-1]) if d else None
-                    ctx.check(e2 is not None and pos.get(e2["x"]) in (1, 3), "BEL-4", po, d[-1] if d else po.node, f"`{mv}` = maximisers over the action axis of an action array of the solver", "", f"maximiser set `{mv}` changed")
+                    ctx.check(e2 is not None and pos.get(e2["x"]) in (1, 3), "BEL-4", po, d[-1] if d else po.node, "a maximiser set = maximisers over the action axis of an action array of the solver", "", f"maximiser set `{mv}` changed")
                     if e2:
                         srcs.add(pos.get(e2["x"]))
                 ctx.check(srcs == {1, 3}, "BEL-4", po, c1[0][0], "one maximiser set is of the action gains, the other of the action values", str(srcs), "the two maximiser sets are not those of action gain and action bias")
